@@ -29,6 +29,31 @@ def gw(pid, design, text):
     return dict(level="model_checking", design=design, text=text, note=GW_NOTE,
                 technique="TLC model checking of Gateway.tla (GatewayMC.tla focus runs) + replay of TLC behaviours into the real "
                           "Gateway + TLC trace validation of recorded executions (GatewayTrace.tla)")
+P_NOTE = ("File-system model (Persist.tla / harness/fsshim.py): data reaches the medium only through fsync; create / rename / remove are "
+          "atomic, ordered and durable (journalled metadata); no directory fsync. The shim replaces open/os as seen from "
+          "mysensors.persistence; real OS crash semantics are not exercised.")
+CHECKS["C12"] = dict(level="model_checking", design="5 C12",
+   text="Persist.tla models the save as a process with one label per file-system operation and three copies of each file (Python buffer, OS, "
+        "medium); TLC checks AtomicReplace (a load after a crash at ANY label, with or without loss of unsynced data, or after any failing "
+        "operation, restores exactly the last committed snapshot) and that the next save commits the current state, over all interleavings "
+        "with mutations, faults and restarts. The real save_sensors / safe_load_sensors run on a fault-injecting shim: both formats x prior "
+        "on-disk configurations x EVERY operation index x {fail, crash-keep, crash-lose}; operation traces and loaded states are validated by TLC.",
+   note=P_NOTE, technique="TLC model checking of Persist.tla + exhaustive fault-point enumeration of the real save on a shim, traces validated by TLC (PersistTrace.tla)")
+CHECKS["C13"] = dict(level="model_checking", design="5 C13",
+   text="LoadRes of Persist.tla is the safe-load contract (main if intact, else intact backup promoted, else empty; total). TLC checks "
+        "LoadTotalAndWhole for every content-class combination; real files of both formats are truncated at every byte offset, emptied and "
+        "zero-filled, crossed with absent / intact / damaged backups, loaded by fresh gateways through safe_load_sensors and start_persistence, "
+        "and every (raised?, loaded state) is validated by TLC against LoadRes.",
+   note="Real files in a scratch directory. Damage classes: truncation, empty, zero-fill (as the property lists); bit flips inside the file are not covered.",
+   technique="TLC check of LoadRes + TLC validation of recorded loads of every truncation offset (PersistLoad.tla)")
+CHECKS["C15"] = dict(level="model_checking", design="5 C15",
+   text="Persist.tla includes the periodic schedule (armed / running), failing operations and mutations during serialisation that the dump "
+        "notices (raises) or not. TLC checks that a failed attempt leaves the committed state loadable, keeps the dirty flag, never kills the "
+        "schedule, and (weak fairness) that an unsaved state is eventually saved. The real SyncTasks timer chain and AsyncTasks save loop run on "
+        "the shim with a failing operation at every index and an inbound message injected at every serialiser call; operation traces, dirty flag, "
+        "re-arming and the post-crash load are validated by TLC.",
+   note=P_NOTE + " Contention is simulated by running the message from inside the serialiser, not by a second thread.",
+   technique="TLC model checking (safety + liveness) of Persist.tla + fault/contention enumeration on the real schedules, traces validated by TLC")
 CHECKS["C09"] = dict(level="model_checking", design="5 C09",
    text="Ota.tla states what an OTA server must serve (0xFF padding of at most one page to a multiple of 128, 16-byte blocks, "
         "little-endian words, CRC-16/MODBUS defined bit by bit). TLC checks the spec's arithmetic for every length 1..400 and then acts "
